@@ -28,18 +28,27 @@ const P: &str = "C15";
 pub enum Val {
     Q(Rat),
     F(BigInt, i64, usize), // significand, exponent, precision (base of the module's `F`)
+    Inf(bool),             // +inf (true) / -inf as a float operand (used by C16 only)
 }
 impl Val {
-    fn int(&self) -> Option<&BigInt> {
+    pub fn int(&self) -> Option<&BigInt> {
         match self {
             Val::Q(r) if r.is_int() => Some(&r.n),
             _ => None,
         }
     }
-    fn show(&self) -> String {
+    pub fn show(&self) -> String {
         match self {
             Val::Q(r) => r.show(),
             Val::F(s, e, p) => format!("{}e{}@p{}", s, e, p),
+            Val::Inf(pos) => if *pos { "+inf".into() } else { "-inf".into() },
+        }
+    }
+    pub fn is_zero(&self) -> bool {
+        match self {
+            Val::Q(r) => r.is_zero(),
+            Val::F(s, _, _) => s.is_zero(),
+            Val::Inf(_) => false,
         }
     }
 }
@@ -170,6 +179,7 @@ macro_rules! forms_module {
                 fn mk(v: &Val) -> Option<Self> {
                     match v {
                         Val::F(s, e, p) => Some(FBig::from_repr(Repr::<$b>::new(ref_to_i(s), *e as isize), Context::<$r>::new(*p))),
+                        Val::Inf(pos) => Some(if *pos { FBig::INFINITY } else { FBig::NEG_INFINITY }),
                         _ => None,
                     }
                 }
@@ -182,12 +192,12 @@ forms_module!(f10, mode::HalfAway, 10);
 forms_module!(f2, mode::Zero, 2);
 
 #[derive(Clone, Copy, PartialEq, Eq, Debug)]
-enum Kind {
+pub enum Kind {
     Int,
     Ratio,
     Float,
 }
-fn kind_of(f: &Form) -> Kind {
+pub fn kind_of(f: &Form) -> Kind {
     let d = f.desc;
     let has = |t: &str| d.split(|c: char| !(c.is_alphanumeric() || c == '_')).any(|w| w == t);
     if has("F") {
